@@ -32,6 +32,7 @@ func init() {
 		Rule: "S1 (API seam, ALL interleavings): every assignment of operation sequences over {GetSymHash(k1), GetSymHash(k2), SymHash2Str(h1), SymHash2Str(h2), env.Items()} to 2 threads x 2 ops (thorough also 2x3 and 3x1, 3x2) on two fresh keys forced to collide; " +
 			"S2 (real evaluations, deviation bound 1, thorough 2): 2-3 Evals in separate scopes of one interpreter that intern the same new identifiers, call evalEnv, decode JSON and compare/hash/print the strings the symbol table hands out; " +
 			"S3 (start-up loaders, bound 1, thorough 2): pairs of the real readNativeCode bodies from the table state that exists when the start-up goroutines are spawned; " +
+			"S4 (main script and handlers, bound 1, thorough 2): one evaluation assigning variables in a shared scope while 1-2 others call a handler function defined in that scope from enclosed scopes (what the HTTP module does after serve(background: true)); " +
 			"the tables are restored to a snapshot before every execution; oracle: no happens-before-unordered conflicting accesses on symHashTable/strTable nor on any package-level variable that a function other than init assigns, nor on any field of an object-package struct that some statement assigns after construction (every read/write of such a field is recorded per object; at present Env.Store, PanErr.StackTrace, PanFunc.Env, PanObj.Keys/Pairs/PrivateKeys/zero; a new lazily written field is picked up automatically), SymHash2Str returns what the thread interned, Items() never panics, no deadlock, same final tables and results in every schedule; " +
 			"states = schedules executed, transitions = scheduling steps; non-trivial = schedule containing a cross-thread conflicting access pair; distinct = distinct (scenario, choice vector)",
 		Assumptions: []string{
@@ -186,6 +187,44 @@ func (w *world) s2Body(src string, results *[]string, idx int) func() {
 	}
 }
 
+const s4Setup = "zz_c20_g0 := 10\nzz_c20_handler := {|req| [zz_c20_g0, req, Int.name, zz_c20_g0 + req]}\nzz_c20_handler"
+
+// envBody evaluates src in the given scope (shared or enclosed).
+func (w *world) envBody(src string, env *object.Env, results *[]string, idx int) func() {
+	return func() {
+		out := "?"
+		func() {
+			defer func() {
+				if p := recover(); p != nil {
+					out = fmt.Sprintf("PANIC %v", p)
+				}
+			}()
+			node, err := parser.Parse(parser.NewReader(strings.NewReader(src), "c20"))
+			if err != nil {
+				out = "syntax: " + err.Error()
+				return
+			}
+			out = evaluator.Eval(node, env).Inspect()
+		}()
+		(*results)[idx] = out
+	}
+}
+
+func genS4(thorough bool, emit func(tcase)) {
+	bound := 1
+	if thorough {
+		bound = 2
+	}
+	mains := []string{"zz_c20_g1 := zz_c20_g0 + 1; zz_c20_g2 := 2; zz_c20_g1", "zz_c20_other := {|| 1}; zz_c20_other()"}
+	handlers := []string{"zz_c20_handler(1)", "[1, 2]@{|r| zz_c20_handler(r)}"}
+	for _, m := range mains {
+		for _, h := range handlers {
+			emit(tcase{Scenario: "S4", Threads: [][]string{{m}, {h}}, Bound: bound})
+		}
+	}
+	emit(tcase{Scenario: "S4", Threads: [][]string{{mains[0]}, {handlers[0]}, {handlers[0]}}, Bound: 1})
+}
+
 func (w *world) s3Body(name string, env *object.Env, results *[]string, idx int) func() {
 	return func() {
 		out := "?"
@@ -233,6 +272,20 @@ func (w *world) execute(t tcase, trace bool) obs {
 	case "S2":
 		for i, th := range t.Threads {
 			bodies = append(bodies, w.s2Body(th[0], &results, i))
+		}
+	case "S4":
+		// the main script goes on in its (global) scope while request handlers defined there run: thread 0 evaluates
+		// in the shared scope itself, the others call a handler from an enclosed scope of it
+		main := object.NewEnclosedEnv(w.c.R().Root)
+		if o := w.c.R().EvalSrcIn(main, s4Setup, ""); o.Kind != "value" {
+			w.c.HarnessError("S4 set-up failed: %s", o.Short())
+		}
+		for i, th := range t.Threads {
+			if i == 0 {
+				bodies = append(bodies, w.envBody(th[0], main, &results, i))
+			} else {
+				bodies = append(bodies, w.envBody(th[0], object.NewEnclosedEnv(main), &results, i))
+			}
 		}
 	case "S3":
 		env := object.NewEnvWithConsts()
@@ -498,6 +551,7 @@ func run(c *core.Ctx) {
 	nS1 := len(cases)
 	genS2(c.Thorough(), func(t tcase) { cases = append(cases, t) })
 	genS3(c.Thorough(), func(t tcase) { cases = append(cases, t) })
+	genS4(c.Thorough(), func(t tcase) { cases = append(cases, t) })
 	c.Note("S1_thread_assignments", nS1)
 	c.Note("scenario_instances", len(cases))
 	tk.Sharded(c, len(cases), func(i int) {
